@@ -2,6 +2,7 @@
 
 R1  gradient mutation => divergence refresh: every mutation of the gradient grid the integrator was built on is
     followed (in the same function or in every caller) by update_div_neighbors()/set_div() under b_integrate
+R4  1D periodic closure: the subtracted mean ranges over the same bins as the cumulative sum
 R2  dimension-suffix / index agreement in the Laplacian and divergence stencils of integrate_potential
 """
 import re
@@ -272,7 +273,61 @@ def r3(F, rep):
         raise AnalysisBroken("update_div_neighbors: only %d update_div_local calls found" % len(calls))
 
 
+def r4(F, rep):
+    rep.rule("C16-R4", "one-dimensional periodic PMF closes: integrate() subtracts from every bin of its cumulative sum the value "
+                       "returned by the gradient grid's average(); that function sums the same per-bin quantity over every "
+                       "bin of the grid without skipping any (no condition or `continue` inside its loop) and divides by the "
+                       "number of points of the grid, not by a count taken inside the loop")
+    f = F.one("integrate_potential::integrate")
+    corr = [c for c in X.calls(f) if X.callee_name(c) == "average" and c["k"] == "CXXMemberCallExpr"]
+    if not corr:
+        rep.add("C16-R4", "integrate|correction", f.loc(), "integrate() no longer subtracts the mean gradient for a periodic variable", False, func=f.q)
+        return
+    per_bin = set()
+    for l in f.walk():
+        if l["k"] == "ForStmt":
+            for c in X.calls(f, l):
+                if X.callee_name(c).startswith("value_output"):
+                    per_bin.add(X.callee_name(c))
+    if not per_bin:
+        raise AnalysisBroken("C16-R4: per-bin gradient read in the 1D branch of integrate() not found")
+    a = F.funcs.get(corr[0].get("callee"))
+    if a is None or a.body is None:
+        raise AnalysisBroken("C16-R4: body of the averaging function not found")
+    from .rules_c10 import lvalue_writes
+    from .rules_c03 import structural_guards
+    loops = [l for l in a.walk() if l["k"] == "ForStmt"]
+    if not loops:
+        raise AnalysisBroken("C16-R4: no loop in %s" % a.q)
+    L = loops[0]
+    acc = [(w, t) for w, t in lvalue_writes(a) if w.get("op") == "+=" and any(x is L for x in a.ancestors(w))]
+    same = any(X.callee_name(c) in per_bin for w, t in acc for c in X.calls(a, w))
+    cond = [g for w, t in acc for g in structural_guards(a, w) if any(x is L for x in a.ancestors(g[0]))]
+    skips = [n for n in a.walk(L) if n["k"] in ("ContinueStmt", "BreakStmt")]
+    rep.add("C16-R4", "average|every-bin", a.loc(L), "%s adds %s for every bin of its loop: %s" % (
+        a.q, "/".join(sorted(per_bin)), "yes" if (acc and same and not cond and not skips) else
+        "NO (%d accumulation(s), same quantity: %s, %d condition(s), %d continue/break)" % (len(acc), same, len(cond), len(skips))),
+        bool(acc) and same and not cond and not skips,
+        detail="integrate() adds (g - corr) * width for every bin: the sum returns to zero after one period only if corr is the mean over all of them", func=a.q)
+    # divisor
+    rets = [r for r in a.walk() if r["k"] == "ReturnStmt" and X.kids(r)]
+    ok = False
+    what = "?"
+    for r in rets:
+        e = X.strip(X.kids(r)[0])
+        if e["k"] == "BinaryOperator" and e.get("op") == "/":
+            d = X.kids(e)[1]
+            what = X.re_strip(X.key(d, a))
+            counters = {X.strip(t).get("d") for w, t in lvalue_writes(a) if any(x is L for x in a.ancestors(w)) and X.strip(t)["k"] == "DeclRefExpr"}
+            uses_counter = X.mentions(d, lambda m: m["k"] == "DeclRefExpr" and m.get("d") in counters)
+            ok = ("nx" in what or "number_of_points" in what or "nt" in what) and not uses_counter
+    rep.add("C16-R4", "average|divisor", a.loc(rets[-1]) if rets else a.loc(), "%s divides the sum by `%s`%s" % (
+        a.q, what, "" if ok else " -- not the number of grid points"), ok,
+        detail="a divisor counted inside the loop is the number of bins that contributed, not the number of bins the cumulative sum runs over", func=a.q)
+
+
 def run(F, rep, tier):
+    r4(F, rep)
     r1(F, rep)
     r2(F, rep)
     r3(F, rep)
